@@ -729,6 +729,19 @@ static int d_sched_create_user_nullpools(void **h)
     ABT_pool pools[3] = { ABT_POOL_NULL, ABT_POOL_NULL, ABT_POOL_NULL };
     return ABT_sched_create(&def, 3, pools, ABT_SCHED_CONFIG_NULL, (ABT_sched *)h);
 }
+/* a pool of the caller's next to entries the library has to create: when a later step fails the
+ * caller's pool is what it was (what the library prints about it includes its scheduler count) */
+static int d_sched_create_user_mixedpools(void **h)
+{
+    ABT_sched_def def = { .type = ABT_SCHED_TYPE_ULT, .init = s18_init, .run = s18_run, .free = s18_free, .get_migr_pool = NULL };
+    ABT_pool pools[3] = { UP.pool, ABT_POOL_NULL, ABT_POOL_NULL };
+    return ABT_sched_create(&def, 3, pools, ABT_SCHED_CONFIG_NULL, (ABT_sched *)h);
+}
+static int d_sched_create_basic_mixedpools(void **h)
+{
+    ABT_pool pools[3] = { ABT_POOL_NULL, UP.pool, ABT_POOL_NULL };
+    return ABT_sched_create_basic(ABT_SCHED_PRIO, 3, pools, ABT_SCHED_CONFIG_NULL, (ABT_sched *)h);
+}
 static int d_set_main_sched_null_joined(void **h)
 {
     /* ABT_SCHED_NULL: the library creates the default scheduler itself */
@@ -1045,6 +1058,8 @@ static const op18 OPS[] = {
     { "ABT_pool_create(user_def)", d_pool_create_user, u_pool, ABT_POOL_NULL, 0, 0 },
     { "ABT_sched_create(user_def)", d_sched_create_user, u_sched, ABT_SCHED_NULL, 0, 0 },
     { "ABT_sched_create(user_def, null pools)", d_sched_create_user_nullpools, u_sched, ABT_SCHED_NULL, 0, 0 },
+    { "ABT_sched_create(user_def, user_pool + null pools)", d_sched_create_user_mixedpools, u_sched, ABT_SCHED_NULL, 0, 1 },
+    { "ABT_sched_create_basic(null + user_pool + null)", d_sched_create_basic_mixedpools, u_sched, ABT_SCHED_NULL, 0, 1 },
     { "ABT_xstream_set_main_sched(joined, ABT_SCHED_NULL)", d_set_main_sched_null_joined, u_set_main_sched_joined, POISON, 2, 0 },
     { "ABT_xstream_create_with_rank", d_xstream_create_with_rank, u_xstream, ABT_XSTREAM_NULL, 0, 0 },
     { "ABT_key_create", d_key_create, u_key, ABT_KEY_NULL, 0 },
